@@ -45,7 +45,7 @@ Theorem C15_valid_fields : forall g : geom,
     (65525 <= cluster_count v ->
        fat_specific_info v = Fat32Info (g_root_cluster g) (g_lba g + g_fs_info g) /\
        free_clusters_count v = spec_free (g_info_free g) /\
-       next_free_cluster v = spec_hint (g_info_next g)).
+       next_free_cluster v = spec_hint (n_clusters g) (g_info_next g)).
 Proof. exact mount_format_fields. Qed.
 
 (* ---- 2. any other contents: arbitrary bytes in every block of the device (MBR, boot sector,
@@ -69,7 +69,9 @@ Theorem C15_info_sentinels : forall (g : geom) (ib : block),
        (get32 ib 488 = 4294967295 -> free_clusters_count v = None) /\
        (get32 ib 488 <> 4294967295 -> free_clusters_count v = Some (get32 ib 488)) /\
        (get32 ib 492 = 4294967295 \/ get32 ib 492 = 0 \/ get32 ib 492 = 1 -> next_free_cluster v = None) /\
-       (get32 ib 492 <> 4294967295 -> 2 <= get32 ib 492 -> next_free_cluster v = Some (get32 ib 492))).
+       (get32 ib 492 <> 4294967295 -> 2 <= get32 ib 492 -> get32 ib 492 < n_clusters g + 2 ->
+          next_free_cluster v = Some (get32 ib 492)) /\
+       (n_clusters g + 2 <= get32 ib 492 -> next_free_cluster v = None)).
 Proof. exact info_sentinels. Qed.
 
 (* partition table: the specific error for each defect, for any device *)
